@@ -126,7 +126,7 @@ def gen_cases(rng: Rng, tier):
             lpdeg=rng.choice([0, 1, 1, 2]),
             nseg=rng.randint(1, 5), psdeg=rng.randint(1, 3), pen=rs(rng.choice([Fraction(1, 4), 1, 1, 8, 0])),
             order=rng.choice([1, 2, 2, 3]), a=rs(rng.choice([rng.dyadic(-3, 3, 2), Fraction(2), Fraction(0)])),
-            csv=(k % 10 == 7), strided=(k % 4 == 1),
+            csv=(k % 10 == 7), strided=(k % 4 == 1), penspell=rng.choice(["tuple", "list", "int", "float", "np", "array"]),
         )
 
 
@@ -266,7 +266,9 @@ def _ops(fd, case, irregular=True):
     bw = float(F(case["bw"]))
     lpkw = dict(kernel_name=case["kernel"], degree=case["lpdeg"])
     pskw = dict(n_segments=case["nseg"], degree=case["psdeg"])
-    pen = (float(F(case["pen"])),)
+    p0 = float(F(case["pen"]))
+    pen = {"int": int(p0) if p0 == int(p0) else p0, "float": p0, "np": np.float64(p0), "list": [p0], "array": np.array([p0])}.get(case.get("penspell"), (p0,))
+    pen_canon = (p0,)
     a = float(F(case["a"]))
     cont = _content if irregular else _dense_content
     _try(out, "to_long", lambda: _long(fd))
@@ -287,6 +289,7 @@ def _ops(fd, case, irregular=True):
     _try(out, "smooth_lp_pts", lambda: _vals(fd.smooth(points=pts, method="LP", bandwidth=bw, **lpkw)))
     _try(out, "smooth_ps_pts", lambda: _vals(fd.smooth(points=pts, method="PS", penalty=pen, **pskw)))
     _try(out, "mean_lp_pts", lambda: _vals(fd.mean(points=pts, method_smoothing="LP", bandwidth=bw)))
+    _try(out, "smooth_ps_canon", lambda: _vals(fd.smooth(method="PS", penalty=pen_canon, **pskw)))
     if irregular:
         _try(out, "smooth_interp", lambda: _vals(fd.smooth(method="interpolation")))
         _try(out, "smooth_interp_pts", lambda: _vals(fd.smooth(points=pts, method="interpolation")))
@@ -831,6 +834,10 @@ def _oracle_enc(case, impl):
             bad("arithmetic_content", "arith_" + nm,
                 f"NaN encoding, operands missing different samples: the result has {r['fake']} samples observed in only one operand (or none), "
                 f"loses {r['lost']} samples observed in both, {r['wrong']} wrong values")
+    for e, o_ in (("NaN", A), ("ragged", B)):
+        a_, c_ = o_.get("smooth_ps"), o_.get("smooth_ps_canon")
+        if isinstance(a_, list) and isinstance(c_, list) and not np.allclose(np.array(a_), np.array(c_), rtol=0, atol=1e-9 * max(1.0, float(np.abs(np.array(c_)).max()))):
+            bad("option_spelling", "smooth_ps", f"{e} encoding: penalty spelled {case.get('penspell')} ({case['pen']}) does not give the result of the tuple-of-floats spelling")
     # second call on the same object
     for again, first in (("mean_lp_again", "mean_lp"), ("nsq_again", "nsq"), ("noise_again", "noise")):
         for e, o_ in (("NaN", A), ("ragged", B)):
